@@ -520,10 +520,29 @@ class InterpolatableFunction(ABC):
 
         ## Outside the interpolation region use whatever extrapolation
         ## type the function uses
+        ## Only the out-of-range points are differentiated here, each side
+        ## separately and with one-sided stencils that do not reach into the table.
+        ## evaluate() is used for the stencil points so that every one of them gets
+        ## a value even if an adaptive update moves the table range meanwhile.
         if xEvaluateRegion.size > 0:
-            results[needsEvaluationCondition] = helpers.derivative(
-                self._evaluateOutOfBounds, x, n=order, epsilon=epsilon, scale=scale
+            outOfBoundsResults = np.empty(
+                xEvaluateRegion.shape + tuple(fxShape[x.ndim:])
             )
+            belowRange = xEvaluateRegion < self._rangeMin
+            for side, bounds in (
+                (belowRange, (-np.inf, self._rangeMin)),
+                (~belowRange, (self._rangeMax, np.inf)),
+            ):
+                if np.any(side):
+                    outOfBoundsResults[side] = helpers.derivative(
+                        self.evaluate,
+                        xEvaluateRegion[side],
+                        n=order,
+                        bounds=bounds,
+                        epsilon=epsilon,
+                        scale=scale,
+                    )
+            results[needsEvaluationCondition] = outOfBoundsResults
 
         return results
 
